@@ -199,7 +199,7 @@ class SchedFd:
         return out
 
 
-ERR = {"EOFError": 5, "IndexError": 6, "ValueError": 6}
+ERR = {"EOFError": 5, "IndexError": 6, "ValueError": 6, "Bad7zFile": 1}
 
 
 def _exc_code(e):
@@ -335,7 +335,7 @@ class _Folder:
 
 
 def corr_worker(ctx, rep, rng, n_cases):
-    """Worker.decompress (the caller loop) on real objects against worker_decompress / extract_members"""
+    """Worker.decompress (the caller loop, with its stall guard) on real objects against RoundTrip.gworker / gextract"""
     import py7zr.py7zr as P
     model = ctx["model"]
     saved = P.get_memory_limit
@@ -689,6 +689,9 @@ def contract_case(arg):
         out += e.flush()
         return bytes(out)
     cuts = [rng.choice([0, 1, 2, 7, 16, 17, 100, 4096, 32768, 70000]) for _ in range(rng.randrange(0, 12))]
+    if arg.get("blocks"):
+        # the chunking SevenZipCompressor.compress itself produces: whole blocks of the I/O block size
+        cuts = [arg["blocks"]] * (n // arg["blocks"])
     blob = encode(enc, cuts)
     res = {"packed": len(blob)}
     if name != "aes":
@@ -697,6 +700,8 @@ def contract_case(arg):
     dec = mkdec(n)
     want = data if name != "aes" else data + bytes((-len(data)) % 16)
     rs = rng.choice([1, 7, 16, 17, 100, 4096, 1 << 20]) if name != "aes" else rng.choice([16, 17, 100, 4096, 1 << 20])
+    if arg.get("blocks"):
+        rs = arg["blocks"]
     out, pos, stalled, over = bytearray(), 0, 0, False
     first = True
     while len(out) < len(want) and stalled < 3:
@@ -705,6 +710,8 @@ def contract_case(arg):
         first = False
         pos += len(ch)
         ml = rng.choice([-1, len(want) - len(out), max(1, (len(want) - len(out)) // 3), 1])
+        if arg.get("blocks"):
+            ml = len(want) - len(out)         # Worker.decompress asks for what is left of the member
         got = dec.decompress(ch, ml)
         if ml >= 0 and len(got) > ml:
             over = True
@@ -730,11 +737,15 @@ def check_contracts(ctx, rep, rng, tier):
                 n = rng.choice([70001, 200003])
             jobs.append({"codec": name, "seed": rng.getrandbits(32), "n": n,
                          "texture": rng.choice(["random", "period", "text", "code", "zeros"])})
-    # pyppmd's decoder fault is a thread race (about one large case in ten): a few more large cases, among them one that
-    # hung three times out of three when it was found
-    jobs.append({"codec": "ppmd", "seed": 244817139, "n": 70001, "texture": "random"})
-    for _ in range(10 if tier == "quick" else 40):
-        jobs.append({"codec": "ppmd", "seed": rng.getrandbits(32), "n": rng.choice([32769, 70001, 200003]), "texture": rng.choice(TEXTURES)})
+    # every codec also exactly as the two drivers drive it: encoder fed whole I/O blocks (1 MiB), decoder fed whole
+    # blocks and asked for what is left of the member -- on incompressible data, where one call produces the most output
+    for name in names:
+        for n in ([40000, 200003] if tier == "quick" else [40000, 70001, 200003, 1048577, 2097153]):
+            jobs.append({"codec": name, "seed": rng.getrandbits(32), "n": n, "texture": "random", "blocks": 1 << 20})
+    # pyppmd: its encoder loses bytes when one encode() call produces more than 32 KiB (incompressible input of more than
+    # 32 KiB in one block), and its decoder then returns wrong bytes, stalls, hangs or crashes: fixed witnesses
+    for n, seed in ((40000, 2), (70001, 2), (70001, 5), (200003, 6)):
+        jobs.append({"codec": "ppmd", "seed": seed, "n": n, "texture": "random", "blocks": 1 << 20})
     table = rep.extra.setdefault("codec_contracts", {})
 
     def one(job):
@@ -1154,7 +1165,7 @@ def classify(ctx, spec, r):
         return "brotli followed by 7zAES: the zero padding AES adds to the packed brotli stream is handed to the brotli decoder " \
                "(the gate on _unpacksizes does not trim it): %s" % desc, keys
     if any(p.startswith("ppmd") for p in parts) and total >= 32768 and (
-            r["exc"] in ("crash", "ValueError", "timeout") or r["stage"] in ("content", "process")):
+            r["exc"] in ("crash", "ValueError", "timeout", "CrcError", "Bad7zFile", "NoProgress") or r["stage"] in ("content", "process", "spin")):
         if ctx.get("codec_faults", {}).get("ppmd"):
             keys = {"kind": "codec-fault", "codec": "ppmd"}
             return "PPMd member data of %d bytes: pyppmd's decoder fails on its own encoder's output (the codec contract " \
@@ -1188,6 +1199,9 @@ def check_e2e(ctx, rep, rng, tier):
     for nbytes in (1, 2, 3, 4, 5, 6, 7, 8):   # the header lands on a boundary of the 64-byte volumes for some of these
         specs.append({"chain": "copy", "password": None, "header": "raw", "target": "multivolume", "volume": 64, "block": None,
                       "limit": None, "api": "writestr", "members": [["h", {"n": nbytes, "texture": "text", "seed": 4}]]})
+    for n_, seed_ in ((40000, 2), (70001, 2), (70001, 5), (200003, 6)):     # PPMd on incompressible data of more than 32 KiB
+        specs.append({"chain": "ppmd", "password": None, "header": "encoded", "target": "bytesio", "volume": 4096, "block": None,
+                      "limit": None, "api": "writestr", "members": [["p", {"n": n_, "texture": "random", "seed": seed_}]]})
     # one write() spanning more than 1000 volumes of 64 bytes
     specs.append({"chain": "copy", "password": None, "header": "encoded", "target": "multivolume", "volume": 64, "block": None,
                   "limit": None, "api": "writestr", "members": [["m", {"n": 100000, "texture": "text", "seed": 1}]]})
